@@ -239,7 +239,11 @@ pub fn gen_job(r: &mut Rng, w: &World, w3c: bool, n: u64) -> PJob {
         } else {
             None
         };
-        picks.push(Pick { cred: ci, attrs, preds, list });
+        let inc = r.chance(1, 2);
+        if inc && list.map_or(false, |li| li > 0) {
+            tags.push("state-derived-incrementally");
+        }
+        picks.push(Pick { cred: ci, attrs, preds, list, inc });
     }
     // self-attested referent (legacy only)
     if !w3c && r.chance(1, 5) {
@@ -253,7 +257,7 @@ pub fn gen_job(r: &mut Rng, w: &World, w3c: bool, n: u64) -> PJob {
     if r.chance(1, 4) {
         let pos = r.below(picks.len() as u64 + 1) as usize;
         let ci = *r.pick(&mine);
-        picks.insert(pos, Pick { cred: ci, attrs: vec![], preds: vec![], list: None });
+        picks.insert(pos, Pick { cred: ci, attrs: vec![], preds: vec![], list: None, inc: false });
         tags.push("unused-credential");
     }
     // faults of the holder's selection
@@ -317,7 +321,7 @@ fn present_sexp(w: &World, p: &Pick) -> String {
         sx::l(&subj),
         src
     );
-    let st = p.list.and_then(|li| w.states.get(&(p.cred, li)).map(|_| li));
+    let st = w.state_of(p).and(p.list);
     let ts = st.map(|li| w.lists[li].ts);
     let state = match (st, c.rev_idx) {
         (Some(li), Some(idx)) => format!("((1 {} {}))", w.lists[li].acc_class, sx::boolean(!w.lists[li].revoked.contains(&idx))),
@@ -452,7 +456,7 @@ pub fn run_job(w: &World, j: &PJob) -> Option<(String, Value)> {
                 secrets.push(sx::s("signature_correctness_proof"));
             }
             if let Some(li) = p.list {
-                if let Some(st) = w.states.get(&(p.cred, li)) {
+                if let Some(st) = w.state_of(p) {
                     let wv = serde_json::to_value(&st.witness).unwrap();
                     if secret_strings(&wv).iter().any(|x| all.contains(x)) {
                         secrets.push(sx::s("revocation_witness"));
